@@ -4,6 +4,8 @@ import (
 	"fmt"
 	"os"
 	"time"
+
+	"github.com/sdcio/data-server/pkg/datastore/target"
 )
 
 // Checks maps property ids to their drivers; each returns the process exit code.
@@ -69,6 +71,17 @@ type e1Config struct {
 	extraAssume   []string
 	deep          *deepPhase // optional second phase: reduced alphabet, deeper
 	noPrune       bool
+	extra         []*extraPhase // further searches with their own checker / southbound target
+}
+
+// extraPhase is an additional history search of a check with another checker and southbound target.
+type extraPhase struct {
+	name       string
+	checker    Checker
+	names      []string
+	depth      [2]int
+	initials   func() []*Initial
+	makeTarget func(w *World) target.Target
 }
 
 // deepPhase is a second search with a reduced alphabet and a larger depth bound.
@@ -175,6 +188,31 @@ func runE1(prop string) int {
 		cov["traces_validated_against_impl"] = cov["transitions"]
 		cov["exhaustive"] = cov["exhaustive"].(bool) && c2["exhaustive"].(bool)
 	}
+	for _, x := range cfg.extra {
+		e3 := &E1{U: e.U, Cache: e.Cache, Rep: rep}
+		if err := configureE1(prop, e3); err != nil {
+			return fail(err)
+		}
+		e3.Checker = x.checker
+		e3.Alphabet = BuildAlphabet(x.names, nil, true)
+		if x.initials != nil {
+			e3.Initials = x.initials()
+		}
+		e3.Depth = x.depth[0]
+		if Tier() == "thorough" {
+			e3.Depth = x.depth[1]
+		}
+		e3.Opts.MakeTarget = x.makeTarget
+		if err := e3.Run(); err != nil {
+			return fail(err)
+		}
+		c3 := e3.Coverage()
+		cov["phase_"+x.name] = map[string]any{"alphabet_fragments": x.names, "states": c3["states"], "transitions": c3["transitions"], "max_depth_completed": c3["max_depth_completed"], "depth_bound": c3["depth_bound"], "exhaustive": c3["exhaustive"]}
+		cov["states"] = toInt64(cov["states"]) + int64(e3.States)
+		cov["transitions"] = toInt64(cov["transitions"]) + int64(e3.Transitions) + int64(e3.ProbeTrans)
+		cov["traces_validated_against_impl"] = cov["transitions"]
+		cov["exhaustive"] = cov["exhaustive"].(bool) && c3["exhaustive"].(bool)
+	}
 	return rep.Finish(cov)
 }
 
@@ -205,4 +243,16 @@ func init() {
 	registerE1("C09", &e1Config{checker: C09Checker{}, depth: [2]int{2, 3}, orphan: true, renderAll: true, probes: C09Probes, frags: smallFrags,
 		deep: &deepPhase{names: []string{"fa", "fa1", "fb", "fd"}, depth: [2]int{3, 4}, initials: func() []*Initial { return CoreInitials()[:1] }},
 		extraAssume: []string{"probe transitions (re-submissions) start from every state reached with fewer than depth_bound operations"}})
+}
+
+func toInt64(v any) int64 {
+	switch x := v.(type) {
+	case int:
+		return int64(x)
+	case int64:
+		return x
+	case int32:
+		return int64(x)
+	}
+	return 0
 }
